@@ -284,7 +284,9 @@ def outer_rank(ctx, rule="C16.layout"):
                 ok = bool(shaped) or single
                 ctx.ob(rule, f.site, ok, "" if ok else f"`{ast.unparse(outer[0])[:50]}` is returned as it is: a (c^k, c^k) matrix for k modes, while the "
                        "other return of the method has one pair of axes per mode", role="outer-rank", line=r.lineno)
-    ctx.require(n >= 1, "no state method returns an outer product of a thewalrus state vector (BaseGaussianState.reduced_dm did)")
+    if n == 0:
+        # not an anchor: a rewrite without np.outer has nothing to check here (the positive example is the self-test variant)
+        ctx.note(f"{rule}: no state method returns an outer product of a thewalrus state vector")
 
 
 def rules(ctx):
